@@ -513,21 +513,39 @@ def reduce_circle(p):
 
 
 def split_theta(p):
-    """p = p0 + cth p1 + sth p2 with p0, p1, p2 free of cth, sth; raises NotPoly otherwise"""
-    p0, p1, p2 = {}, {}, {}
+    """p = p0 + cth p1 + sth p2 + C2 p3 + S2 p4 with C2 = cos 2theta = cth^2 - sth^2, S2 = sin 2theta = 2 cth sth and
+    p0..p4 free of the orientation; raises NotPoly if the orientation enters with degree > 2.  (Degree 2 occurs
+    when a rotated and a mirrored copy are compared.)"""
+    parts = [{}, {}, {}, {}, {}]
+
+    def add(k, mm, coef):
+        v = parts[k].get(mm, 0) + coef
+        if v == 0:
+            parts[k].pop(mm, None)
+        else:
+            parts[k][mm] = v
+    half = Fraction(1, 2)
     for m, coef in p.items():
         d = dict(m)
         ec, es = d.pop("cth", 0), d.pop("sth", 0)
         mm = tuple(sorted(d.items()))
         if ec + es == 0:
-            p0[mm] = coef
+            add(0, mm, coef)
         elif (ec, es) == (1, 0):
-            p1[mm] = coef
+            add(1, mm, coef)
         elif (ec, es) == (0, 1):
-            p2[mm] = coef
+            add(2, mm, coef)
+        elif (ec, es) == (2, 0):      # cth^2 = (1 + C2)/2
+            add(0, mm, coef * half)
+            add(3, mm, coef * half)
+        elif (ec, es) == (0, 2):      # sth^2 = (1 - C2)/2
+            add(0, mm, coef * half)
+            add(3, mm, -coef * half)
+        elif (ec, es) == (1, 1):      # cth sth = S2/2
+            add(4, mm, coef * half)
         else:
             raise NotPoly("orientation enters with degree %d" % (ec + es))
-    return p0, p1, p2
+    return tuple(parts)
 
 
 def nnf(sk, neg=False):
@@ -572,15 +590,27 @@ def relax_theta(sks, c0, s0, delta):
     clo, chi = Fraction(math.cos(delta)) - Fraction(1, 10 ** 12), 1 + Fraction(1, 10 ** 12)
     slo, shi = -Fraction(1, 10 ** 12), Fraction(math.sin(delta)) + Fraction(1, 10 ** 12)
 
+    C0, S0 = c0 * c0 - s0 * s0, 2 * c0 * s0
+    c2lo, c2hi = Fraction(math.cos(2 * delta)) - Fraction(1, 10 ** 12), 1 + Fraction(1, 10 ** 12)
+    s2lo, s2hi = -Fraction(1, 10 ** 12), Fraction(math.sin(2 * delta)) + Fraction(1, 10 ** 12)
+
     def f(op, p):
         if p == CIRCLE:
             return ("const", True)
-        p0, p1, p2 = split_theta(p)
-        if not p1 and not p2:
+        p0, p1, p2, p3, p4 = split_theta(p)
+        if not (p1 or p2 or p3 or p4):
             return ("atom", op, p)
-        P = padd(pscale(p1, c0), pscale(p2, s0))
-        Q = padd(pscale(p2, c0), pscale(p1, s0), -1)
-        corners = [padd(padd(p0, pscale(P, cc)), pscale(Q, ss)) for cc in (clo, chi) for ss in (slo, shi)]
+        bases = [p0]
+        if p1 or p2:
+            P = padd(pscale(p1, c0), pscale(p2, s0))
+            Q = padd(pscale(p2, c0), pscale(p1, s0), -1)
+            bases = [padd(padd(b_, pscale(P, cc)), pscale(Q, ss)) for b_ in bases for cc in (clo, chi) for ss in (slo, shi)]
+        if p3 or p4:
+            # (C2, S2) = c2phi (C0, S0) + s2phi (-S0, C0), (c2phi, s2phi) in its own box (the double angle's arc)
+            P2 = padd(pscale(p3, C0), pscale(p4, S0))
+            Q2 = padd(pscale(p4, C0), pscale(p3, S0), -1)
+            bases = [padd(padd(b_, pscale(P2, cc)), pscale(Q2, ss)) for b_ in bases for cc in (c2lo, c2hi) for ss in (s2lo, s2hi)]
+        corners = bases
         if op in ("flt", "fle"):
             return ("or", [("atom", op, c) for c in corners])
         return ("and", [("or", [("atom", "fle", c) for c in corners]), ("or", [("atom", "fle", pscale(c, -1)) for c in corners])])
@@ -593,8 +623,10 @@ def pin_theta(sks, c0, s0):
     def f(op, p):
         if p == CIRCLE:
             return ("const", True)
-        p0, p1, p2 = split_theta(p)
-        return ("atom", op, padd(padd(p0, pscale(p1, c0)), pscale(p2, s0)))
+        p0, p1, p2, p3, p4 = split_theta(p)
+        r = padd(padd(p0, pscale(p1, c0)), pscale(p2, s0))
+        r = padd(padd(r, pscale(p3, c0 * c0 - s0 * s0)), pscale(p4, 2 * c0 * s0))
+        return ("atom", op, r)
     return [theta_map(nnf(sk), f) for sk in sks]
 
 
